@@ -69,7 +69,7 @@ pub fn fork(Tracked(k): Tracked<&mut Kernel>) -> (r: Result<ForkResult, VxErrno>
     ensures final(k).fds == old(k).fds && final(k).cloexec == old(k).cloexec && final(k).next_id == old(k).next_id && final(k).tty_pgrp == old(k).tty_pgrp && final(k).pgrp == old(k).pgrp,
         match r {
             Ok(ForkResult::Child) => final(k).child && final(k).forks == old(k).forks && final(k).self_pid > 0,
-            Ok(ForkResult::Parent { child }) => !final(k).child && child > 0 && child as int != old(k).self_pid && final(k).forks == old(k).forks.push(child as int) && final(k).self_pid == old(k).self_pid,
+            Ok(ForkResult::Parent { child }) => !final(k).child && child > 0 && child as int != old(k).self_pid && child as int != old(k).tty_pgrp && final(k).forks == old(k).forks.push(child as int) && final(k).self_pid == old(k).self_pid,
             Err(_) => !final(k).child && final(k).forks == old(k).forks && final(k).self_pid == old(k).self_pid,
         }
 { unimplemented!() }
@@ -586,6 +586,10 @@ run_single_program = Fn(C, 'run_single_program', ret='r', pre_rewrites=RSP_RW, f
          '(idx_cmd == 0 && final(k).forks != old(k).forks ==> *final(pgid) == r) && (idx_cmd > 0 ==> *final(pgid) == *old(pgid)) && final(k).pgrp == old(k).pgrp'),
         ('C07.rsp.terminal_only_to_foreground_first_stage',
          'final(k).tty_pgrp != old(k).tty_pgrp ==> *final(term_given) && idx_cmd == 0 && final(k).tty_pgrp == r as int && r > 0 && !cl.background && options.isatty && old(sh).has_terminal'),
+        # ... and the converse: the first stage of a foreground pipeline on a terminal IS offered the terminal, whatever kind of stage it is (an external program or a
+        # builtin in a forked copy): the flag reported to the caller says exactly whether the terminal is now that stage's
+        ('C07.rsp.the_first_stage_of_a_foreground_pipeline_is_offered_the_terminal',
+         'idx_cmd == 0 && r > 0 && final(k).forks != old(k).forks && !cl.background && options.isatty && old(sh).has_terminal ==> *final(term_given) == (final(k).tty_pgrp == r as int)'),
         ('C07.rsp.single_builtin_keeps_terminal', 'spec_single_builtin(*cl) ==> final(k).tty_pgrp == old(k).tty_pgrp && *final(term_given) == *old(term_given)'),
         ('C07.rsp.term_given_flag_monotone', '*old(term_given) ==> *final(term_given) || idx_cmd == 0'),
     ],
@@ -714,7 +718,7 @@ UNIT = Unit('U-FD', TEMPLATE, fns=[Fn('src/types.rs', 'new', impl='CommandResult
                    TypeItem('src/types.rs', 'struct', 'CommandResult'), TypeItem('src/types.rs', 'struct', 'CommandOptions')],
             props=('C02', 'C04', 'C08', 'C07', 'C05'))
 TRUSTED = common.TRUSTED_STR + [
-    'the kernel calls pipe / dup / dup2 / close / fork / setpgid / getpid / waitpid are shims over a ghost descriptor table and process table with their POSIX contracts (lowest free descriptor, '
+    'the kernel calls pipe / dup / dup2 / close / fork / setpgid / getpid / waitpid are shims over a ghost descriptor table and process table with their POSIX contracts (lowest free descriptor, the process id of a new child is not the id of an existing process group -- in particular not the foreground group of the terminal --, '
     'a child gets a copy of the table, close-on-exec not modelled because no descriptor of the shell carries it)',
     'the shell itself ignores SIGTSTP and SIGQUIT and has the default SIGPIPE action (main.rs, outside the verifier): the ghost SigLog starts from that; signal() succeeds',
     'the exec region (argv / envp construction, PATH lookup, execve) is one opaque shim whose REQUIRES carry the descriptor, process-group and signal state; the bytes of a text (str::as_bytes) are uninterpreted',
